@@ -6,11 +6,30 @@ from check import Result
 PROP = "C17"
 TARGETS = ["NetqasmVerif.Props.C17"]
 M_ = "NetqasmVerif.Props.C17"
-THEOREM_NAMES = ["parse_print_tokens", "parse_print_tokens_one", "vanilla_rows_ok", "nv_rows_ok", "reids_rows_ok"]
+THEOREM_NAMES = ["parse_print_tokens", "parse_print_tokens_one", "vanilla_rows_ok", "nv_rows_ok", "reids_rows_ok",
+                 "syms_ok", "int_str_roundtrip", "operand_roundtrip", "parse_print", "vanilla_parse_print",
+                 "nv_parse_print", "reids_parse_print", "text_binary_text", "nv_text_binary_text",
+                 "reids_text_binary_text", "vanilla_text_binary_text_partial",
+                 "vanilla_text_binary_text_counterexample"]
 THEOREMS = [(M_, "NQ.C17." + n) for n in THEOREM_NAMES]
 TRANSLATORS = ["instr_table", "asm_tables"]
-LEVEL_TEXT = "see below"
-LEVEL_NOTE = "see below"
+LEVEL_TEXT = ('Lean theorems at CHARACTER level: parse_print — for every flavour table and every list of instructions '
+              'with in-range operands (negative integers, entries, slices with register indices of every bank) '
+              'the printed text, one str(instr) per line, lexes (word splitting, is_number/int, register, address, '
+              'index and slice parsing) and assembles (constant replacement, name map, from_operands) back to '
+              'exactly these instructions; includes int(str(v)) = v for every integer by induction on the digits. '
+              'Instantiated without side condition for vanilla, NV and REIDS (vanilla/nv/reids_parse_print). '
+              'text_binary_text: with C01, text -> binary -> text is stable for whole subroutines (NV, REIDS '
+              'unconditional; vanilla outside the recorded opcode clash, counter-example proved). Tie: '
+              'generated obligations rowTextOk (mnemonic -> class via GenericInstr + flavour name map, every '
+              'immediate position in _REPLACE_CONSTANTS_EXCEPTION) and symsOk (symbols.py, bank letters) '
+              're-decided by the kernel; differential stream: str(instr) vs Lean printer (equal strings), '
+              'parse_text_subroutine vs Lean parser incl. error classes on malformed source.')
+LEVEL_NOTE = ('Trusted: Lean kernel; translators + harness; Python str/int/split/strip/find as modelled '
+              '(List Char functions, validated by the correspondence). The parser model covers label-free, '
+              'macro-free, argument-free, comment-free body lines (what the printer produces; other forms are '
+              'reported unsupported and skipped in the malformed stream). Open finding F1 (C01) makes text -> '
+              'binary -> text unstable for vanilla meas_basis.')
 TECHNIQUE = ('Lean 4 proof (induction over operand and instruction lists) + kernel-decided generated '
              'obligations + differential correspondence (printer strings, parser results, error classes)')
 TRUSTED = [
